@@ -285,6 +285,15 @@ def explore(ctx):
             failures.append({'kind': 'spec', 'what': '%s: no error message (rc=%s)' % (what, p.returncode), 'payload': {'args': args}})
         elif p.returncode == 0 and what not in ('unreadable (root can read it)', 'a file whose reads fail', 'a directory'):
             failures.append({'kind': 'spec', 'what': '%s: exit status 0' % what, 'payload': {'args': args, 'stderr': err[-200:]}})
+    # a rejected query whose diagnostic cannot be delivered (stderr is a pipe nobody reads): still exit 1, not a panic
+    for q in ('* | json | count by', '* | limit 0', '* | nosuchop', '("unclosed'):
+        rfd, wfd = os.pipe()
+        os.close(rfd)
+        p = subprocess.run([aglib.AGRIND, q], input=b'a\n', stdout=subprocess.PIPE, stderr=wfd, env=aglib.ENV, timeout=20)
+        os.close(wfd)
+        evaluations += 1
+        if p.returncode in (101, 134, -6, -11) or p.returncode == 0:
+            failures.append({'kind': 'spec', 'what': 'a rejected query with the reader of stderr gone: exit status %s (expected 1)' % p.returncode, 'payload': {'query': q}})
     os.chmod(noperm, 0o600)
     os.remove(noperm)
     os.rmdir(tmpd)
